@@ -185,6 +185,22 @@ def run_history(ctx, seed):
                         kinds[u] = 'direct-rows'
                         world.spawn(lambda u=u, p=ps[0]: pw.direct_request(p, u, 'rows'), name='borrower-%d' % u)
                     steps_log.append(('borrower-threads',))
+                if ps and rng.random() < 0.5:
+                    # the replacement's handshake is kept back until the pool waits for it, then released while this thread keeps borrowing
+                    # (non-blocking borrows): borrows overlap every stage of the completion of _replace
+                    pw.hold_handshake[0] = True
+                    u = new_uid()
+                    kinds[u] = 'rows'
+                    plan.set(u, 'rows')
+                    rec.execute_async(session, u, timeout=30.0)
+                    world.settle(advance=False)
+                    pw.hold_handshake[0] = False
+                    pw.release_handshakes()
+                    for _ in range(rng.randint(6, 16)):
+                        u = new_uid()
+                        kinds[u] = 'direct-rows'
+                        pw.direct_request(ps[0], u, 'rows', timeout=0.0)
+                    steps_log.append(('borrow-loop-over-replacement',))
                 for _ in range(burst):
                     u = new_uid()
                     kinds[u] = 'rows'
